@@ -89,6 +89,7 @@ func TestC29(t *testing.T) {
 func testChunks(t *testing.T) {
 	r := vh.New(t, "C29", "chunks")
 	r.Coq("From Verif Require Import Xfer.Chunks.", "Chunks.case", "Chunks.agree", "Chunks.ok")
+	r.Shard = 30 // long contents: evaluate the shards in parallel
 	rng := r.Rng
 
 	emit := func(kind string, rs []run, nids int, uid, gid int, mode int64) {
@@ -144,7 +145,7 @@ func testChunks(t *testing.T) {
 		}
 		emit("corpus", rs, 2, 1000, 1000, 0o644)
 	}
-	n := r.N(200, 3000)
+	n := r.N(120, 3000)
 	for i := 0; i < n; i++ {
 		var rs []run
 		var total int
@@ -276,6 +277,7 @@ type msgObs struct {
 func testPipeline(t *testing.T) {
 	r := vh.New(t, "C29", "pipeline")
 	r.Coq("From Verif Require Import Xfer.Pipeline.", "Pipeline.case", "Pipeline.agree", "Pipeline.ok")
+	r.Shard = 13 // evaluate the shards in parallel
 	rng := r.Rng
 	registerXfer()
 	w := cw.New(t, cw.Options{})
@@ -432,7 +434,7 @@ func testPipeline(t *testing.T) {
 		for i, b := range pc.Beh {
 			switch b.Kind {
 			case "Abort":
-				bs[i] = fmt.Sprintf("(Abort %d)", b.K)
+				bs[i] = fmt.Sprintf("(GiveUp %d)", b.K)
 			default:
 				bs[i] = b.Kind
 			}
